@@ -1191,7 +1191,7 @@ def lines_e2e_cde(cases, workdir, stream, binary):
             out.append(line("direct", ["C05"], ok=hdr_ok, what="kind/id/version of the import file", case=i, stream=stream, nontrivial=False))
             # the Lean model: reader + writer + HardOK on the problem the model reads
             payload = json.dumps({"doc": tag(c["doc"]), "opts": c["opts"], "imp": tag(strip_import(imp)), "rooms": c["rooms"]}, ensure_ascii=False)
-            out.append(line("spec", ["C05", "C11", "C01", "C06"], "CE", payload, "file=ok write=ok hard=true room=true", case=i, stream=stream,
+            out.append(line("spec", ["C05", "C11", "C01", "C06", "C12"], "CE", payload, "file=ok write=ok hard=true room=true", case=i, stream=stream,
                             nontrivial=bool(imp.get("registrations"))))
             if c.get("prf") and c["rooms"] is None:
                 # asked for without a room list: there are no possible rooms to name, the field is not written
